@@ -292,6 +292,11 @@ def run(chk):
             p = os.path.join(wdir, "corpus_%d_%d%d.wb" % (ci, where[0], where[1]))
             open(p, "w").write(json.dumps(cw))
             docs.append((p, "structure", "D29 corpus: depth-surface point coordinate %g" % big, None, 0))
+    for ci, ver in enumerate(["1.10", "1.1 ", "1.1-beta", "1.12", "1", "01.1", "1.1.0"]):
+        cw = {"version": ver, "features": []}
+        p = os.path.join(wdir, "corpus_ver_%d.wb" % ci)
+        open(p, "w").write(json.dumps(cw))
+        docs.append((p, "structure", "version %s" % json.dumps(ver), True, 0))
     for ci, pt in enumerate([[5e4], [], [5e4, 4e4, 3e4]]):
         cw = {"version": "1.1", "features": [{"model": "continental plate", "name": "a", "coordinates": [[0, 0], [1e5, 0], [1e5, 1e5], [0, 1e5]],
                                                "max depth": [[1e5], [2e5, [pt]]]}]}
